@@ -24,7 +24,8 @@ EXPLANATION = (
     "T*V*(dP_ph/dT)^2/(9 e_i e_j C_V) as an exact normal form (dP_ph/dT derived by differentiating the per-mode "
     "pressure of the property statement; C_V bound to qha's volumetric heat capacity on the (T,V) grid); "
     "adiabatic = isothermal + gap; gap rows masked at T = 0; the shear class returns its isothermal value as the "
-    "adiabatic one and the task list feeds shear tasks from the isothermal store only.")
+    "adiabatic one and the task list feeds shear tasks from the isothermal store only. The gap is also folded cell by cell on a "
+    "2 x 4 (q, m) grid with symbolic weights through the real reduction code (R02.7): both mode sums weight-normalised and Gamma-masked.")
 NOT_DECIDED = "the value of C_V (qha), numerical equality, positivity of C_V."
 ASSUMPTIONS = ["T-LIB: qha cv_tv_au is the volumetric heat capacity on the (T,V) grid in Ry/K per cell",
                "see C01 (shared formula engine and seeds)"]
